@@ -2082,6 +2082,59 @@ var c10Fixed = []func(h *c10Hist, do func(*c10Op)){
 		do(h.opWrite(c10Place{root: "m", sel: 'k', k: c10Str("k")}, c10IdxInt(1, "fixed"), c10Str("via-m"), false))
 		do(h.opRead(c10P("a"), c10IdxInt(1, "fixed"), false))
 	},
+	// 10/11: a name bound to an element of a slice of slices by `for` / by a
+	// spreading `var` is a copy of the element's header: appending through it
+	// (assignment at index len, +=) is Go's `x = append(x, v)` and never
+	// lengthens the element of the outer slice; element stores write through
+	func(h *c10Hist, do func(*c10Op)) { c10NestedHistory(h, do, true) },
+	func(h *c10Hist, do func(*c10Op)) { c10NestedHistory(h, do, false) },
+}
+
+func c10NestedHistory(h *c10Hist, do func(*c10Op), typed bool) {
+	raw := func(src, opk string, commit func()) *c10Op {
+		op := &c10Op{src: src, opk: opk, ck: map[bool]string{true: "tslice-of-tslice", false: "uslice-of-uslice"}[typed], pk: "loopvar", mut: true}
+		if commit != nil {
+			op.commit = func(reflect.Value) { commit() }
+		}
+		return op
+	}
+	if typed {
+		do(h.opInit("nn", c10Val{"[][]int64{[]int64{1, 2}, []int64{3}}", [][]int64{{1, 2}, {3}}, "tslice-lit"}))
+	} else {
+		do(h.opInit("nn", c10USlice(c10USlice(c10Int(1), c10Int(2)), c10USlice(c10Int(3)))))
+	}
+	elem := func(i int) reflect.Value { return c10Unwrap(h.vars["nn"].cur().Index(i)) }
+	do(raw("for c10e in nn { c10e[len(c10e)] = 9 }", "loopvar-append-at-len", nil))
+	do(raw("for c10e in nn { c10e += 8 }", "loopvar-append", nil))
+	do(raw("for c10e in nn { c10e[0] = 7 }", "loopvar-element-store", func() {
+		for i := 0; i < 2; i++ {
+			elem(i).Index(0).Set(reflect.ValueOf(int64(7)).Convert(elem(i).Type().Elem()))
+		}
+	}))
+	do(raw("var c10a, c10b = nn\nc10a[len(c10a)] = 5\nc10b += 6", "spreadvar-append", nil))
+	do(raw("var c10a, c10b = nn\nc10b[0] = 4", "spreadvar-element-store", func() {
+		elem(1).Index(0).Set(reflect.ValueOf(int64(4)).Convert(elem(1).Type().Elem()))
+	}))
+	do(raw("c10f = func(x) { x[len(x)] = 1\n return len(x) }\nc10f(nn[0])", "parameter-append-at-len", nil))
+	do(raw("c10x = nn[1]\nc10x[len(c10x)] = 2", "copy-append-at-len", nil))
+	lenOp := func(i int) *c10Op {
+		op := raw(fmt.Sprintf("len(nn[%d])", i), "len-of-element", nil)
+		op.mut, op.hasVal = false, true
+		op.vals = c10One(reflect.ValueOf(int64(elem(i).Len())))
+		return op
+	}
+	do(lenOp(0))
+	do(lenOp(1))
+	do(raw("nn[0][len(nn[0])] = 6", "element-append-at-len", func() {
+		e := elem(0)
+		v := reflect.ValueOf(int64(6)).Convert(e.Type().Elem())
+		if !typed {
+			v = reflect.ValueOf(interface{}(int64(6)))
+		}
+		r := c10AppendModel(e, []reflect.Value{v}, c10Unwrap(h.lget(c10P("nn")).Index(0)))
+		h.vars["nn"].cur().Index(0).Set(r)
+	}))
+	do(lenOp(0))
 }
 
 func c10RunFixed(c *wk.Case) {
